@@ -21,7 +21,8 @@ Theorem accept_sound : forall c builtins f, pcfg_ok c -> compiler_facts f -> acc
   is_lambda f = false /\ first f = Some "channel" /\ has_closure f = false /\
   forall n, In n (gloads f) -> In n builtins /\ ~ In n (module_names f).
 Proof.
-  intros c builtins f [S G] [Inc Dis] A. unfold accept in A. repeat (apply andb_true_iff in A; destruct A as [A ?]).
+  intros c builtins f [S G] [Inc Dis] A. unfold accept in A. apply andb_true_iff in A. destruct A as [A _].
+  repeat (apply andb_true_iff in A; destruct A as [A ?]).
   apply negb_true_iff in A. rewrite G in H. cbn in H.
   assert (GD : global_decls f = []) by (destruct (global_decls f); [reflexivity|discriminate]).
   assert (NoLocal : forall n, In n (gloads f) -> ~ In n (varnames f)).
@@ -38,14 +39,37 @@ Proof.
       apply mem_in in M. congruence.
 Qed.
 
+(* with the scan of the compiled code's global lookups the conclusion needs NO assumption about the compiler: acceptance itself says
+   that every name the code objects look up globally is a builtin the module does not rebind *)
+Theorem accept_sound_direct : forall c builtins f, shadow_checked c = true -> gloads_checked c = true -> accept c builtins f = true ->
+  is_lambda f = false /\ first f = Some "channel" /\ has_closure f = false /\
+  forall n, In n (gloads f) -> In n builtins /\ ~ In n (module_names f).
+Proof.
+  intros c builtins f S Gl A. unfold accept in A. apply andb_true_iff in A. destruct A as [A Hg].
+  repeat (apply andb_true_iff in A; destruct A as [A ?]). apply negb_true_iff in A.
+  rewrite Gl in Hg. cbn in Hg. rewrite forallb_forall in Hg.
+  repeat split; auto.
+  - destruct (first f) as [a|]; [|discriminate]. apply String.eqb_eq in H2. subst. reflexivity.
+  - apply negb_true_iff in H1. exact H1.
+  - specialize (Hg n H3). unfold gname_ok in Hg. apply andb_true_iff in Hg. apply mem_in. tauto.
+  - intro M. specialize (Hg n H3). unfold gname_ok in Hg. apply andb_true_iff in Hg. destruct Hg as [_ Hg]. rewrite S in Hg. cbn in Hg.
+    apply negb_true_iff in Hg. apply mem_in in M. congruence.
+Qed.
+(* without it, a comprehension variable that the compiler keeps among the function's locals (Python 3.12) hides the global use of
+   the same name: the compiler fact assumed by accept_sound is false for such a function *)
+Example comprehension_variable_refuted :
+  let f := {| names := ["x"; "range"; "channel"]; varnames := ["channel"; "x"]; gloads := ["range"; "x"]; first := Some "channel"; has_closure := false; is_lambda := false; module_names := []; global_decls := [] |} in
+  accept {| shadow_checked := true; global_stmt_checked := true; gloads_checked := false |} ["range"] f = true /\ In "x" (gloads f) /\ ~ In "x" ["range"].
+Proof. cbn. intuition discriminate. Qed.
+
 (* what the pinned tree accepted *)
 Example shadow_unchecked_refuted :
   let f := {| names := ["id"; "channel"]; varnames := ["channel"]; gloads := ["id"]; first := Some "channel"; has_closure := false; is_lambda := false; module_names := ["id"]; global_decls := [] |} in
-  accept {| shadow_checked := false; global_stmt_checked := true |} ["id"; "len"] f = true /\ In "id" (gloads f) /\ In "id" (module_names f).
+  accept {| shadow_checked := false; global_stmt_checked := true; gloads_checked := false |} ["id"; "len"] f = true /\ In "id" (gloads f) /\ In "id" (module_names f).
 Proof. cbn. intuition. Qed.
 Example nested_global_unchecked_refuted :
   let f := {| names := ["a"; "channel"]; varnames := ["channel"; "a"]; gloads := ["a"]; first := Some "channel"; has_closure := false; is_lambda := false; module_names := []; global_decls := ["a"] |} in
-  accept {| shadow_checked := true; global_stmt_checked := false |} ["len"] f = true /\ In "a" (gloads f) /\ ~ In "a" ["len"].
+  accept {| shadow_checked := true; global_stmt_checked := false; gloads_checked := false |} ["len"] f = true /\ In "a" (gloads f) /\ ~ In "a" ["len"].
 Proof. cbn. intuition discriminate. Qed.
 
 Lemma shipped_line_offset : forall first k, 1 <= first -> 1 <= k -> shipped_line first k = first + k - 1.
